@@ -64,6 +64,11 @@ def run_rt(job, timeout=600):
 def model_to_inputs(model, contract):
     if not model:
         return None, None
+    # a candidate model is only replayed when every parameter can be rebuilt faithfully from it
+    for _n, ty in contract.params:
+        t = (ty or "any")
+        if t == "any" or t.startswith(("obj:", "class:", "cstruct:")) or "any" in t:
+            return None, None
     inputs, consts = {}, {}
     for name, _ty in contract.params:
         if name not in model:
